@@ -9,7 +9,7 @@ from __future__ import annotations
 import ast
 
 from mlmverif import cfg as cfgm
-from mlmverif.core import (AnalysisError, Ctx, FuncInfo, is_self_attr, kwarg,
+from mlmverif.core import (parent_map, AnalysisError, Ctx, FuncInfo, is_self_attr, kwarg,
                            unparse, walk_no_nested)
 from mlmverif.locks import LockEngine, ls_has
 from mlmverif.props import c05
@@ -166,6 +166,9 @@ def _stops_linked_loop(x: ast.AST, attrs: set[str]) -> bool:
           and isinstance(c.func.value, ast.Name) and c.func.value.id == x.target.id for c in ast.walk(x))
 
 
+_DONE_IMPLIED_BY_FAILURE = [False]
+
+
 def _failed_edges(p, q, lab):
   """Normal edges, with tests of the failure state folded for "a failure has been recorded"."""
   if not cfgm.only_normal(p, q, lab):
@@ -178,6 +181,8 @@ def _failed_edges(p, q, lab):
     val = None
     if is_self_attr(t) and t.attr in ('exception', '_exception'):
       val = True
+    elif is_self_attr(t) and t.attr == 'enqueue_done' and _DONE_IMPLIED_BY_FAILURE[0]:
+      val = True      # enqueue_done answers True first thing when a failure is recorded (checked in r12)
     elif isinstance(t, ast.Compare) and len(t.ops) == 1 and is_self_attr(t.left) and t.left.attr in (
         'exception', '_exception') and isinstance(t.comparators[0], ast.Constant) and t.comparators[0].value is None:
       val = isinstance(t.ops[0], (ast.IsNot, ast.NotEq))
@@ -202,6 +207,15 @@ def r12(ctx: Ctx):
   if not attrs:
     raise AnalysisError('IteratorQueue.maybe_stop stops no linked queue: nothing to check (R-C13-10 reports the missing link)')
   classes = [repo.cls(IU, 'IteratorQueue')]
+  # does `enqueue_done` answer True whenever a failure is recorded? (first statement: if self._exception ...: return True)
+  ed = classes[0].methods.get('enqueue_done')
+  _DONE_IMPLIED_BY_FAILURE[0] = False
+  if ed is not None:
+    body = [b for b in ed.node.body if not (isinstance(b, ast.Expr) and isinstance(b.value, ast.Constant))]
+    if body and isinstance(body[0], ast.If) and any(is_self_attr(y) and y.attr in ('_exception', 'exception') for y in ast.walk(body[0].test)) and (
+        not isinstance(body[0].test, ast.BoolOp) or isinstance(body[0].test.op, ast.Or)) and any(
+            isinstance(r_, ast.Return) and isinstance(r_.value, ast.Constant) and r_.value.value is True for r_ in body[0].body):
+      _DONE_IMPLIED_BY_FAILURE[0] = True
   try:
     classes.append(repo.cls(IU, 'AsyncIteratorQueue'))
   except Exception:  # pylint: disable=broad-exception-caught
@@ -253,6 +267,33 @@ def r12(ctx: Ctx):
                    f' self.{sorted(attrs)} (methods that do: {sorted(summ) or "none"}): path {" -> ".join(w[-4:])}. The'
                    ' workers of a stacked stream stop, the threads feeding them stay blocked in put() on the full input'
                    ' queue for good', node=st.ast)
+  # (c) the stream also ENDS normally: when its last enqueuer is done the linked queues are stopped as well — the loop that
+  # stops them is guarded by nothing stronger than `self.enqueue_done` (a guard on the failure alone leaves the feeders of
+  # a worker function that stops reading early — islice, a search that found its hit — blocked on the full input queue)
+  pm_cache = {}
+  for name, mth in methods.items():
+    for x in ast.walk(mth.node):
+      if not _stops_linked_loop(x, attrs) or name == 'maybe_stop':
+        continue
+      n += 1
+      pm = pm_cache.setdefault(name, parent_map(mth.node))
+      guards = []
+      q = x
+      while q in pm:
+        par = pm[q]
+        if isinstance(par, ast.If) and any(y is q for b in par.body for y in ast.walk(b)):
+          guards.append(par.test)
+        q = par
+      only_failure = [g_ for g_ in guards if any(is_self_attr(y) and y.attr in ('exception', '_exception') for y in ast.walk(g_))
+                      and not any(is_self_attr(y) and y.attr == 'enqueue_done' for y in ast.walk(g_))]
+      what = f'IteratorQueue.{name}: the linked queues are stopped when the stream is over, not only when it failed'
+      if only_failure:
+        ctx.fail(rule, mth, what,
+                 f'the loop that stops the linked queues in {name} runs only under `{unparse(only_failure[0])}`: when the workers of a'
+                 ' stacked stream finish NORMALLY without draining their input (the worker function stops reading early) the'
+                 ' stream is exhausted, but the threads feeding the input queue stay blocked in put() for good', node=x)
+      else:
+        ctx.ok(rule, mth, what, x)
   # the link method handles "already failed"
   for lname in sorted(_stop_link_methods(repo)):
     m = methods[lname]
@@ -273,7 +314,7 @@ def r12(ctx: Ctx):
                f'{lname}() only registers its argument: the stacking function makes the link AFTER it launched the workers,'
                ' so a failure on the very first element has already run the failure path (with nothing linked yet) —'
                ' the feeder threads are never stopped', node=m.node)
-  ctx.floor(rule, 3, n)
+  ctx.floor(rule, 4, n)
 
 
 def r13(ctx: Ctx):
@@ -681,14 +722,17 @@ VARIANTS = [
     B('default-pool-memoised', 'utils/iter_utils.py',
       'def _get_thread_pool(\n', '@functools.cache\ndef _get_thread_pool(\n', 'R-C13-13'),
     B('revert-failure-stops-linked', 'utils/iter_utils.py',
-      "    if self.exception is not None:\n      # A failed stream is over: what feeds its enqueuers is stopped as well,\n      # its threads are otherwise blocked on their full queue for good.\n      for other in self._stopped_with:\n        other.maybe_stop()\n",
+      "    if self.enqueue_done:\n      # The stream is over (failed, stopped, or every enqueuer is done): what\n      # feeds its enqueuers is stopped as well, its threads are otherwise\n      # blocked on their full queue for good.\n      for other in self._stopped_with:\n        other.maybe_stop()\n",
       '', 'R-C13-12'),
+    B('revert-linked-stop-on-failure-only', 'utils/iter_utils.py',
+      "    if self.enqueue_done:\n      # The stream is over (failed, stopped, or every enqueuer is done): what",
+      "    if self.exception is not None:\n      # The stream is over (failed, stopped, or every enqueuer is done): what", 'R-C13-12'),
     B('link-ignores-earlier-failure', 'utils/iter_utils.py',
       "    self._stopped_with.append(other)\n    if self.exception is not None:\n      # Already failed, e.g., on the very first element.\n      other.maybe_stop()\n",
       "    self._stopped_with.append(other)\n", 'R-C13-12'),
     OK('failure-stops-linked-through-helper', 'utils/iter_utils.py',
-       "    if self.exception is not None:\n      # A failed stream is over: what feeds its enqueuers is stopped as well,\n      # its threads are otherwise blocked on their full queue for good.\n      for other in self._stopped_with:\n        other.maybe_stop()\n",
-       "    if self.exception is not None:\n      self._stop_linked()\n\n  def _stop_linked(self):\n    for other in self._stopped_with:\n      other.maybe_stop()\n"),
+       "    if self.enqueue_done:\n      # The stream is over (failed, stopped, or every enqueuer is done): what\n      # feeds its enqueuers is stopped as well, its threads are otherwise\n      # blocked on their full queue for good.\n      for other in self._stopped_with:\n        other.maybe_stop()\n",
+       "    if self.enqueue_done:\n      self._stop_linked()\n\n  def _stop_linked(self):\n    for other in self._stopped_with:\n      other.maybe_stop()\n"),
     B('revert-piter-pool-sized-for-feeders', 'utils/iter_utils.py',
       '    thread_pool = _get_thread_pool(\n        thread_pool, max_workers=len(input_iterators) + max(max_parallism, 1)\n    )',
       '    thread_pool = _get_thread_pool(thread_pool)', 'R-C13-11'),
